@@ -323,6 +323,8 @@ func DecodeMatchField(class uint16, field uint8, length uint8, hasMask bool, dat
 		case OXM_FIELD_IPV6_EXTHDR:
 		case OXM_FIELD_TCP_FLAGS:
 			val = new(TcpFlagsField)
+		case OXM_FIELD_ACTSET_OUTPUT:
+			val = new(ActsetOutputField)
 		default:
 			log.Printf("Unhandled Field: %d in Class: %d", field, class)
 		}
